@@ -3,7 +3,9 @@
 use vcore::{Ctx, J};
 
 mod c03;
+mod c01;
 mod c06;
+mod semcheck;
 mod c11;
 
 type ReplayFn = fn(&Ctx, &J) -> Result<(), String>;
@@ -12,6 +14,7 @@ type RunFn = fn(&Ctx);
 fn table(prop: &str) -> Option<(RunFn, ReplayFn)> {
   Some(match prop {
     "C03" => (c03::run, c03::replay),
+    "C01" => (c01::run, c01::replay),
     "C06" => (c06::run, c06::replay),
     "C11" => (c11::run, c11::replay),
     _ => return None,
